@@ -21,12 +21,15 @@ type Opts struct {
 	Lattice       bool // prefer small integer coordinates (discriminating predicates)
 	NoCircle      bool
 	ValidLonLat   bool // keep coordinates within lon/lat bounds mostly
+	LongBias      bool // many lines / rings of 34..63 positions: indexed under a small threshold, not under the default 64
+	RectBias      bool // many (near-)rectangular polygons and plain points: the inputs the representation options act on
 }
 
 type gen struct {
-	t   *rapid.T
-	o   Opts
-	mut int
+	t          *rapid.T
+	o          Opts
+	mut        int
+	invalidDoc bool // this document gets a few out-of-range ordinates
 }
 
 var literalPool = []string{
@@ -43,11 +46,11 @@ func (g *gen) num() string {
 	if g.o.AllowOverflow && rapid.IntRange(0, 30).Draw(t, "ovf") == 0 {
 		return rapid.SampledFrom(overflowPool).Draw(t, "ovflit")
 	}
-	if (g.o.Lattice || g.o.ValidLonLat) && rapid.IntRange(0, 60).Draw(t, "invalidord") == 0 {
+	if g.invalidDoc && rapid.IntRange(0, 15).Draw(t, "invalidord") == 0 {
 		return rapid.SampledFrom([]string{"180.5", "-90.5", "999", "-181", "91", "-1e3"}).Draw(t, "invalidlit")
 	}
 	m := rapid.IntRange(0, 9).Draw(t, "numkind")
-	if g.o.Lattice && m < 9 { // lattice documents stay almost purely lattice, so that long lines keep finite, comparable coordinates
+	if g.o.Lattice { // lattice documents are purely lattice (apart from injected out-of-range ordinates), so long lines keep a lattice box
 		return strconv.Itoa(rapid.IntRange(-4, 12).Draw(t, "lat")) // extent 16: the quad split lines of a full-range box are lattice lines
 	}
 	switch {
@@ -147,6 +150,9 @@ func (g *gen) line() string {
 	if rapid.IntRange(0, 11).Draw(t, "longline") == 0 {
 		n = rapid.IntRange(17, 70).Draw(t, "longlinelen") // long enough for R-tree splits and the default index threshold
 	}
+	if g.o.LongBias && rapid.IntRange(0, 2).Draw(t, "longbias") == 0 {
+		n = rapid.IntRange(34, 63).Draw(t, "longbiaslen")
+	}
 	if g.mutate("line") {
 		switch rapid.IntRange(0, 2).Draw(t, "linemut") {
 		case 0:
@@ -228,7 +234,7 @@ func (g *gen) rectPolygon() string {
 	if rapid.IntRange(0, 3).Draw(t, "rrev") == 0 {
 		pts = [][2]int{{x0, y0}, {x0, y1}, {x1, y1}, {x1, y0}, {x0, y0}}
 	}
-	if rapid.IntRange(0, 2).Draw(t, "rnear") == 0 {
+	if rapid.IntRange(0, 1).Draw(t, "rnear") == 0 {
 		// almost a rectangle: one of the inner vertices moved along one axis
 		i := rapid.IntRange(1, 3).Draw(t, "rvi")
 		pts[i][rapid.IntRange(0, 1).Draw(t, "raxis")] += rapid.SampledFrom([]int{-3, -1, 1, 2, 5}).Draw(t, "rdelta")
@@ -317,6 +323,9 @@ func (g *gen) object(depth int, feature bool) string {
 		typ = rapid.SampledFrom([]string{"GeometryCollection", "FeatureCollection", "Feature"}).Draw(t, "colltype")
 	default:
 		typ = rapid.SampledFrom(geomTypes[:6]).Draw(t, "gtype")
+		if g.o.RectBias && rapid.Bool().Draw(t, "rectbias") {
+			typ = rapid.SampledFrom([]string{"Polygon", "Polygon", "Point"}).Draw(t, "rbtype")
+		}
 	}
 	var reqKey, reqVal string
 	var extra []string
@@ -327,7 +336,7 @@ func (g *gen) object(depth int, feature bool) string {
 		reqKey, reqVal = "coordinates", g.line()
 	case "Polygon":
 		reqKey = "coordinates"
-		if rapid.IntRange(0, 5).Draw(t, "rectpoly") == 0 {
+		if rapid.IntRange(0, 5).Draw(t, "rectpoly") == 0 || (g.o.RectBias && rapid.IntRange(0, 2).Draw(t, "rectpoly2") > 0) {
 			reqVal = g.rectPolygon()
 		} else {
 			reqVal = g.polygon()
@@ -429,6 +438,7 @@ func (g *gen) object(depth int, feature bool) string {
 // Doc draws one document text.
 func Doc(t *rapid.T, o Opts) string {
 	g := &gen{t: t, o: o, mut: o.Mutations}
+	g.invalidDoc = (o.Lattice || o.ValidLonLat) && rapid.IntRange(0, 7).Draw(t, "invaliddoc") == 0
 	depth := o.MaxDepth
 	s := g.object(depth, rapid.IntRange(0, 5).Draw(t, "topfeature") == 0)
 	if g.o.Noise {
